@@ -7,6 +7,7 @@ type string = Stdlib.String.t
 
 external c_crc : int -> string -> int -> int64 = "vp_crc_impl"
 external c_sse42_supported : unit -> bool = "vp_sse42_supported"
+external c_crc_inplace : string -> string -> int64 * int64 = "vp_crc_inplace"
 
 let engine = "c17"
 let rule = "buffers: every length 0..L at every alignment 0..7 (L = 300 quick / 1100 thorough) with position-dependent content, every byte value at every position modulo 8 (reaches all 8x256 table entries and every tail case of the SSE4.2 switch), constant buffers, random buffers up to 64 KiB (quick) / 1 MiB (thorough). Each through mtbl_crc32c, my_crc32c_slicing and my_crc32c_sse42. Non-trivial: length >= 1; distinct by (content, alignment)."
@@ -62,6 +63,17 @@ let run ~tier ~seed ~only acc =
   List.iter (fun (klass, s) -> if want () then check acc ~klass ~sse s 0 ~with_model:true; incr idx)
     [ ("vectors", "123456789"); ("vectors", String.make 32 '\000'); ("vectors", String.make 32 '\255');
       ("vectors", String.init 32 Char.chr); ("vectors", String.init 32 (fun i -> Char.chr (31 - i))); ("vectors", "") ];
+  (* the same buffer checksummed twice with its content replaced in place: the value depends on the bytes, not on the address *)
+  List.iter (fun n ->
+    if want () then begin
+      let s1 = String.init n (fun i -> Char.chr ((i * 17 + 1) land 255)) and s2 = String.init n (fun i -> Char.chr ((i * 29 + 200) land 255)) in
+      let case = lazy (JO [ "op", JS "mtbl_crc32c twice on one buffer rewritten in place"; "len", JI n ]) in
+      record acc ~key:(Printf.sprintf "inplace%d" n) ~nontrivial:(n >= 1) ~klass:"rewritten_in_place" case;
+      let (a, b) = c_crc_inplace s1 s2 in
+      if a <> ref_crc s1 || b <> ref_crc s2 then
+        fail acc ~kind:"spec_violation" ~what:"[C17,C12] mtbl_crc32c of a buffer that was rewritten in place is not the CRC-32C of its current content" (Lazy.force case)
+    end;
+    incr idx) [ 1; 4; 8; 9; 64; 1000; 4096; 70000 ];
   let nr = if tier = "thorough" then 3000 else 200 in
   for _ = 1 to nr do
     if want () then begin
